@@ -114,37 +114,44 @@ Definition show_float (f:spec_float) : list N :=
 
 (* sum() of CPython >= 3.12 on a list whose running result has just become a float: Neumaier compensation for
    float items, plain addition of small ints, fall back to plain left-to-right addition after a big int *)
-Inductive num := NI (n:Z) | NF (f:spec_float).
+Inductive num := NI (n:Z) | NF (f:spec_float) | NC (re im:spec_float).
+(* the operand of a complex operation: an int or a double becomes (x, +0.0); None = the int is too large for a double (OverflowError) *)
+Definition to_c (a:num) : option (spec_float * spec_float) :=
+  match a with
+  | NI x => match float_of_int x with Some f => Some (f, f_zero) | None => None end
+  | NF f => Some (f, f_zero)
+  | NC r i => Some (r, i) end.
+Definition c_add (a b:num) : option num :=
+  match to_c a, to_c b with Some (ar, ai), Some (br, bi) => Some (NC (fadd ar br) (fadd ai bi)) | _, _ => None end.
+(* _Py_c_prod: (ar*br - ai*bi, ar*bi + ai*br), four products, no fused operation *)
+Definition c_mul (a b:num) : option num :=
+  match to_c a, to_c b with Some (ar, ai), Some (br, bi) => Some (NC (fsub (fmul ar br) (fmul ai bi)) (fadd (fmul ar bi) (fmul ai br))) | _, _ => None end.
 Definition fits_long (n:Z) : bool := (- 2 ^ 63 <=? n) && (n <? 2 ^ 63).
 Definition f_ge_abs (a b:spec_float) : bool := match SFcompare (SFabs a) (SFabs b) with Some Lt => false | Some _ => true | None => false end.
-Fixpoint sum_generic (acc:spec_float) (l:list num) : option spec_float :=
-  match l with
-  | [] => Some acc
-  | NF x :: r => sum_generic (fadd acc x) r
-  | NI n :: r => match float_of_int n with Some x => sum_generic (fadd acc x) r | None => None end
-  end.
+Definition add_num (a b:num) : option num :=
+  match a, b with
+  | NI x, NI y => Some (NI (x + y))
+  | NI x, NF y => match float_of_int x with Some fx => Some (NF (fadd fx y)) | None => None end
+  | NF x, NI y => match float_of_int y with Some fy => Some (NF (fadd x fy)) | None => None end
+  | NF x, NF y => Some (NF (fadd x y))
+  | _, _ => c_add a b end.
+Fixpoint sum_any (acc:num) (l:list num) : option num :=
+  match l with [] => Some acc | x :: r => match add_num acc x with Some a => sum_any a r | None => None end end.
 Definition fold_comp (f c:spec_float) : spec_float := if negb (f_is_zero c) && f_finite c then fadd f c else f.
-Fixpoint sum_float (f c:spec_float) (l:list num) : option spec_float :=
+Fixpoint sum_float (f c:spec_float) (l:list num) : option num :=
   match l with
-  | [] => Some (fold_comp f c)
+  | [] => Some (NF (fold_comp f c))
   | NF x :: r =>
       let t := fadd f x in
       let c' := if f_ge_abs f x then fadd c (fadd (fsub f t) x) else fadd c (fadd (fsub x t) f) in
       sum_float t c' r
   | NI n :: r =>
       if fits_long n then sum_float (fadd f (f_of_Z n)) c r
-      else match float_of_int n with Some x => sum_generic (fadd (fold_comp f c) x) r | None => None end
+      else sum_any (NF (fold_comp f c)) l          (* leaves the compensated loop for good: plain left-to-right addition of the rest *)
+  | NC _ _ :: _ => sum_any (NF (fold_comp f c)) l
   end.
 (* the whole of sum(values) starting from int 0; result: exact int, or float, or None = OverflowError *)
 (* the generic loop: plain left-to-right Python addition, no compensation *)
-Definition add_num (a b:num) : option num :=
-  match a, b with
-  | NI x, NI y => Some (NI (x + y))
-  | NI x, NF y => match float_of_int x with Some fx => Some (NF (fadd fx y)) | None => None end
-  | NF x, NI y => match float_of_int y with Some fy => Some (NF (fadd x fy)) | None => None end
-  | NF x, NF y => Some (NF (fadd x y)) end.
-Fixpoint sum_any (acc:num) (l:list num) : option num :=
-  match l with [] => Some acc | x :: r => match add_num acc x with Some a => sum_any a r | None => None end end.
 (* integer fast path: only while the running sum and the item fit a C long; an integer beyond that sends the REST of the list - later reals
    included - through the generic loop (found by the thorough float slice: 1 disagreement in 100,000 programs) *)
 Fixpoint py_sum (isum:Z) (l:list num) : option num :=
@@ -152,8 +159,9 @@ Fixpoint py_sum (isum:Z) (l:list num) : option num :=
   | [] => Some (NI isum)
   | NI n :: r => if fits_long n && fits_long (isum + n) then py_sum (isum + n) r else sum_any (NI (isum + n)) r
   | NF x :: r => match float_of_int isum with
-                 | Some fi => match sum_float (fadd fi x) f_zero r with Some f => Some (NF f) | None => None end
+                 | Some fi => sum_float (fadd fi x) f_zero r
                  | None => None end
+  | NC _ _ :: _ => sum_any (NI isum) l
   end.
 (* functools.reduce(operator.mul, values) *)
 Definition mul_num (a b:num) : option num :=
@@ -161,6 +169,30 @@ Definition mul_num (a b:num) : option num :=
   | NI x, NI y => Some (NI (x * y))
   | NI x, NF y => match float_of_int x with Some fx => Some (NF (fmul fx y)) | None => None end
   | NF x, NI y => match float_of_int y with Some fy => Some (NF (fmul x fy)) | None => None end
-  | NF x, NF y => Some (NF (fmul x y)) end.
+  | NF x, NF y => Some (NF (fmul x y))
+  | _, _ => c_mul a b end.
 Fixpoint py_prod (acc:num) (l:list num) : option num :=
   match l with [] => Some acc | x :: r => match mul_num acc x with Some a => py_prod a r | None => None end end.
+
+(* ---------- printing a complex number (abstract_syntax.Complex.__str__): each part is shown as an integer when math.isclose(x, int(x),
+   abs_tol=1e-16) - relative tolerance 1e-9, the default - and as a real otherwise ---------- *)
+Definition rel_tol := S754_finite false 4836370363861653 (-82).      (* 1e-9  = 0x1.12e0be826d695p-30 *)
+Definition abs_tol := S754_finite false 8110080143698364 (-106).     (* 1e-16 = 0x1.cd2b297d889bcp-54 *)
+Definition f_le (a b:spec_float) : bool := match SFcompare a b with Some Lt | Some Eq => true | _ => false end.
+Definition f_eqb (a b:spec_float) : bool := match SFcompare a b with Some Eq => true | _ => false end.
+Definition to_int_if_possible (f:spec_float) : Z + spec_float :=
+  match rounding 0 f with
+  | None => inr f                                   (* not finite *)
+  | Some n =>
+      let b := f_of_Z n in                          (* int(x) as a double: exact, it is the integral part of a double *)
+      let diff := fabs (fsub b f) in
+      if f_eqb f b || f_le diff (fabs (fmul rel_tol b)) || f_le diff (fabs (fmul rel_tol f)) || f_le diff abs_tol then inl n else inr f
+  end.
+Definition show_part (p:Z + spec_float) : list N := match p with inl n => dec n | inr f => show_float f end.
+Definition part_abs (p:Z + spec_float) : Z + spec_float := match p with inl n => inl (Z.abs n) | inr f => inr (fabs f) end.
+Definition part_neg (p:Z + spec_float) : bool := match p with inl n => n <? 0 | inr f => f_lt0 f end.
+Definition show_complex (r i:spec_float) : list N :=
+  let re := to_int_if_possible r in let im := to_int_if_possible i in
+  (match re with inl 0 => [] | _ => show_part re ++ (if part_neg im then [] else [43%N]) end)
+  ++ (if part_neg im then [45%N] else [])
+  ++ (match part_abs im with inl 1 => [] | p => show_part p end) ++ [105%N].
